@@ -304,7 +304,7 @@ def run(ctx):
 
 
 MANIFEST = dict(
-    text='Decides the structural necessary conditions of fracture/slice: immediate return below five; every piece inherits tag, repetition and properties through copiers; the work loop advances only past small-enough pieces and replaces a large one in place; the cut index is derived from the count of the very array it indexes (stays in bounds, cuts stay interior); all cuts.count+1 bins are allocated and collected; slice chains strips from the previous to the next rounded cut, skips empty strips, intersects with non-zero fill and stores interval i in result[i]; the result tree is walked completely; the three vertex-limit blocks of Cell::to_gds are clones that fracture with (max_points, precision) and write every piece through Polygon::to_gds; every caller of Cell::to_gds hands over its own max_points and precision and no function on the way writes to those parameters (R-PASS). Region preservation, non-overlap, termination of re-slicing and the vertex bound themselves are value dependent and not decided.',
+    text='Decides the structural necessary conditions of fracture/slice: immediate return below five; every piece inherits tag, repetition and properties through copiers; the work loop advances only past small-enough pieces and replaces a large one in place; the cut index is derived from the count of the very array it indexes (stays in bounds, cuts stay interior); all cuts.count+1 bins are allocated and collected; slice chains strips from the previous to the next rounded cut, skips empty strips, intersects with non-zero fill and stores interval i in result[i]; the result tree is walked completely; the three vertex-limit blocks of Cell::to_gds are clones that fracture with (max_points, precision) and write every piece through Polygon::to_gds; every caller of Cell::to_gds hands over its own max_points and precision and no function on the way writes to those parameters (R-PASS). Region preservation, non-overlap, termination of re-slicing and the vertex bound themselves are value dependent and not decided. Every vertex-limit block empties the piece array after writing it (R-PAIR); the clone comparison of the three blocks is advisory. The sort of the cut positions is decided by R-MODEL.sort (C20).',
     note='Trusted: clang front end, gx, sa rules; Clipper semantics external.',
-    technique='shape/def-use rules over typed ASTs (index-derivation, bin index by loop variable, strip chaining) + clone family',
+    technique='shape/def-use rules over typed ASTs (index-derivation, bin index by loop variable, strip chaining) + clone family + pairing rule per block + gdstk::sort by interpretation on all small arrays (shared with C20)',
     design='§4 C12')
